@@ -13,5 +13,9 @@ def handle (args : List String) : Option String :=
     some (match typeOf c with
       | .ephemeral => "fresh"
       | tt => "hash\t" ++ encStr (preimage tt u (sectorOf c) s))
+  | ["views", sub, attr] => do
+    let a : Option Str ← if attr = "none" then some none else (decStr (attr.drop 5).toString).map some
+    let v := views (← decStr sub) a
+    some ("\t".intercalate [encStr v.idToken, encStr v.userinfo, encStr v.jwtAccess, encStr v.introspection])
   | _ => none
 end Idpy.Driver.Subject
